@@ -183,6 +183,13 @@ def confirm(v, real):
 def classify(v):
     fam = v.get("family", "")
     if fam.startswith("digits-collision"): return "digit-suffix-collision"
+    if fam.startswith("generic-repeated-arguments") and v.get("kind") == "names":
+        # the C03 finding seen through this contract: the two definitions compare equal, so neither is renamed (got == old for every listed id)
+        import re
+        rows = re.findall(r"\((\d+), '([^']*)', '([^']*)', '([^']*)'\)", v["what"].split(" | ")[0])
+        try:
+            if rows and all(old == got for _, old, got, _ in rows) and c03.same_id_binding_clash(regdsl.decode(bytes.fromhex(v["case"]["reg"]))): return "same-id-under-different-parameter-binding"
+        except Exception: pass
     return v["kind"] + ":" + fam.rsplit("-", 1)[0]
 if __name__ == "__main__":
     main(sys.modules[__name__])
